@@ -14,6 +14,10 @@ CONSTANTS
   Fall = 1
   MaxRounds = 5
   MaxConns = 6
+  NoMonitor = FALSE
+  MaxRefuse = 0
+  MaxClose = 2
+  FailedDialLeaks = FALSE
   MaxHalf = 2
   WatcherLeaves = {}
   MaxToggles = 2
